@@ -19,6 +19,9 @@ analysis (RQA) and recurrence network analysis.
 """
 
 # array object and fast numerics
+from typing import Tuple
+from collections.abc import Hashable
+
 import numpy as np
 
 from ..core import Network
@@ -144,6 +147,13 @@ class RecurrenceNetwork(RecurrencePlot, Network):
             Network.__init__(self, A, directed=False,
                              node_weights=node_weights,
                              silence_level=silence_level)
+
+    def __cache_state__(self) -> Tuple[Hashable, ...]:
+        # both parents contribute (the MRO alone would pick the plot's state);
+        # the plot is set up and queried before `Network.__init__()` has run
+        network_state = (
+            Network.__cache_state__(self) if hasattr(self, "_mut_A") else ())
+        return RecurrencePlot.__cache_state__(self) + network_state
 
     def __str__(self):
         """
